@@ -555,7 +555,7 @@ int sim_main(int argc, char** argv, std::vector<Engine*> engines)
 			{
 				shrunk_per_class[r.v.cls]++;
 				Shrinker sh{*eng, opts, r.v.cls};
-				sh.budget  = shrink_budget;
+				sh.budget  = r.outcome == "timeout" ? std::min(shrink_budget, 4) : shrink_budget;	// a hanging plan is not worth 400 re-executions
 				Plan small = sh.shrink(plan);
 				execs	   = sh.execs;
 				fin		   = run_child(*eng, small, opts, true);
